@@ -33,7 +33,7 @@ CHECKS = {
             SIM + "seeded operation histories over a simulated device with short-transfer schedules vs. reference model", "DESIGN.md §5 C11"),
     "C15": (True, "fault_enumeration",
             "Per sampled writer program the crash space is enumerated completely: every prefix of the recorded device write log x 19+ torn-write cut positions, drop-without-finalize after every call prefix (incl. abandoned sub-writers), failing XML transformer, hard device error at every operation inside finalize; each resulting image must be rejected by the reader or behave exactly like the completed file. Programs are sampled by seed.",
-            "Assumes writes reach the device in issue order and a torn write leaves a byte prefix. Known finding K1 (Drop after a failed finalize) is listed in known_findings.json.",
+            "Assumes writes reach the device in issue order and a torn write leaves a byte prefix.",
             SIM + "crash-point enumeration over the device write log (prefixes x torn cuts) plus drop/transformer/device-error points, reader as judge", "DESIGN.md §5 C15"),
     "C16": (True, "fault_enumeration",
             "Per sampled program the single-fault space is enumerated completely: for every operation of the fault-free device/pipe operation sequence of the writer program or of the read-everything reader session, and every flavour applicable to its kind (hard error, short-then-error, EINTR, write returning 0, disk full), the session is re-run with exactly that fault; the API call in progress must return Err (EINTR may be absorbed with identical result, Drop swallows), finalize Ok implies the fault-free image, flushed. Plus chunking mode: K transfer schedules must give byte-identical images and identical read results.",
